@@ -8,6 +8,10 @@ CONSTANTS o1, o2, o3, MaxLen
 KindDef == (o1 :> "single") @@ (o2 :> "single") @@ (o3 :> "blocking")
 FdDef == (o1 :> 1) @@ (o2 :> 1) @@ (o3 :> 2)
 KindDef2 == (o1 :> "single") @@ (o2 :> "single") @@ (o3 :> "single")
+FdAll1 == (o1 :> 1) @@ (o2 :> 1) @@ (o3 :> 1)
+DirR == (o1 :> "r") @@ (o2 :> "r") @@ (o3 :> "r")
+DirRW == (o1 :> "r") @@ (o2 :> "w") @@ (o3 :> "r")
+DirRRW == (o1 :> "r") @@ (o2 :> "r") @@ (o3 :> "w")
 OpName(o) == IF o = o1 THEN "o1" ELSE IF o = o2 THEN "o2" ELSE "o3"
 
 VARIABLE hist
@@ -31,6 +35,7 @@ GNext ==
                  \/ FireToken(o) /\ Step("fire", o, 0)
                  \/ KeyDrop(o) /\ Step("keydrop", o, 0)
             \/ \E f \in Fds : Feed(f) /\ Step("feed", o1, f)
+            \/ \E f \in Fds : Drain(f) /\ Step("drain", o1, f)
             \/ Poll /\ Step("poll", o1, 0)
             \/ DropDriver /\ Step("dropdrv", o1, 0)
             \/ DropChan /\ Step("dropchan", o1, 0)
@@ -41,5 +46,6 @@ Done == (mon.ended \/ Len(hist) >= MaxLen) /\ ~(drv = "gone" /\ jobs = {} /\ cha
 EmitInv == Done => PrintT(<<"REPLAY", ToJson([driver |-> "poll", sqcap |-> 8,
                                               kinds |-> [o1 |-> Kind[o1], o2 |-> Kind[o2], o3 |-> Kind[o3]],
                                               fds |-> [o1 |-> FdOf[o1], o2 |-> FdOf[o2], o3 |-> FdOf[o3]],
+                                              dirs |-> [o1 |-> Dir[o1], o2 |-> Dir[o2], o3 |-> Dir[o3]],
                                               steps |-> hist])>>)
 =============================================================================
